@@ -46,4 +46,4 @@ def run(ctx):
         "json-patch/serde_json results, the wall clock and the key->clock-shard hash are inputs of the model (recorded per call by the harness)",
         "disk reads are assumed faithful here (C05/C10 cover the bytes); concurrency is outside this engine (Conc engine)",
         "restart side on crash images: devices with two generations of a key (forged by copying a real record with another timestamp) are recovered and the clock floor of every key's shard is read through the hooks (reopen_clock_dominates is the model-side statement)",
-    ], pre_finish=image_stage)
+    ], pre_finish=lambda c, cov: (image_stage(c, cov), __import__("conc_engine").clock_stage(c, cov)))
